@@ -27,6 +27,7 @@ import (
 	"errors"
 	"fmt"
 	"io"
+	"math"
 	"runtime"
 	"sort"
 	"strings"
@@ -73,21 +74,24 @@ type runnerSpec struct {
 }
 
 type closerSpec struct {
-	R *int `json:"r,omitempty"`
-	T int  `json:"t"` // 0 io.Closer, 1 func() error, 2 func(context.Context) error, 3 func()
+	R   *int `json:"r,omitempty"`
+	T   int  `json:"t"`             // 0 io.Closer, 1 func() error, 2 func(context.Context) error, 3 func()
+	Now bool `json:"now,omitempty"` // returns at once instead of waiting to be told
 }
 
 type actSpec struct {
-	A string      `json:"a"` // run | ret | pcancel | close | addcloser | cret | fire | add
+	A string      `json:"a"` // run | ret | pcancel | close | addcloser | cret | adv | fire (= adv by the grace period) | add
 	I int         `json:"i,omitempty"`
+	D int64       `json:"d,omitempty"` // adv: nanoseconds
 	C *closerSpec `json:"c,omitempty"` // addcloser
 	N *runnerSpec `json:"n,omitempty"` // add
 }
 
 type c12Input struct {
-	Kind    string       `json:"kind"` // mgr | plain | stress
-	Grace   bool         `json:"grace,omitempty"`
-	Ctx     string       `json:"ctx,omitempty"` // how "pcancel" ends the context given to Run: cancel (default) | deadline | cause
+	Kind    string       `json:"kind"`            // mgr | plain | stress
+	Grace   bool         `json:"grace,omitempty"` // a grace period of one hour (unless gd is given)
+	GD      *int64       `json:"gd,omitempty"`    // the grace period in nanoseconds: any value, also 0 and negative
+	Ctx     string       `json:"ctx,omitempty"`   // how "pcancel" ends the context given to Run: cancel (default) | deadline | cause
 	Runners []runnerSpec `json:"runners,omitempty"`
 	Closers []closerSpec `json:"closers,omitempty"`
 	Script  []actSpec    `json:"script,omitempty"`
@@ -95,6 +99,26 @@ type c12Input struct {
 	Stress string `json:"stress,omitempty"` // addcloser | add | closerun | addrun
 	Reps   int    `json:"reps,omitempty"`
 	Seed   int64  `json:"seed,omitempty"`
+}
+
+// grace: the grace period the manager is created with (nil = none).
+func (in c12Input) grace() *int64 {
+	if in.GD != nil {
+		g := *in.GD
+		return &g
+	}
+	if in.Grace {
+		g := int64(gracePeriod)
+		return &g
+	}
+	return nil
+}
+
+func coqGrace(g *int64) string {
+	if g == nil {
+		return "None"
+	}
+	return "(Some " + hx.CoqZ(*g) + ")"
 }
 
 func mkErr(r *int, wrap bool) error {
@@ -154,6 +178,7 @@ type obsRec struct {
 	R    *int    `json:"r,omitempty"`
 	Errs []int64 `json:"errs,omitempty"`
 	OK   bool    `json:"ok,omitempty"`
+	D    int64   `json:"d,omitempty"`
 }
 
 type record struct {
@@ -271,8 +296,8 @@ func (o obsRec) coq() string {
 		return fmt.Sprintf("OCloserStart %d", o.I)
 	case "cret":
 		return fmt.Sprintf("OCloserRet %d %s", o.I, coqOptZ(o.R))
-	case "fire":
-		return "OFire"
+	case "adv":
+		return "OAdvance " + hx.CoqZ(o.D)
 	case "fatal":
 		return "OFatal"
 	case "add":
@@ -295,8 +320,8 @@ func (a actSpec) coq() string {
 		return "SAddCloser " + coqOptZ(a.C.R)
 	case "cret":
 		return fmt.Sprintf("SReturnCloser %d", a.I)
-	case "fire":
-		return "SFire"
+	case "adv":
+		return "SAdvance " + hx.CoqZ(a.D)
 	case "add":
 		return "SAdd (" + coqBeh(*a.N) + ")"
 	}
@@ -370,6 +395,8 @@ type scen struct {
 	parentDone  bool
 	toldR       map[int]bool
 	toldC       map[int]bool
+	advShut     int64 // clock advance since shutdown began with the timer armed
+	fatalDue    bool
 	registered  map[int]bool // user closers whose registration succeeded
 	addedR      map[int]bool // runners whose Add succeeded (plain)
 }
@@ -416,10 +443,12 @@ func (s *scen) closerFn(j int) any {
 	spec := s.cspec[j]
 	body := func() error {
 		s.rec.stamp(obsRec{K: "cstart", I: j})
-		select {
-		case <-s.tellC[j]:
-		case <-s.abort:
-			return nil
+		if !spec.Now {
+			select {
+			case <-s.tellC[j]:
+			case <-s.abort:
+				return nil
+			}
 		}
 		s.rec.stamp(obsRec{K: "cret", I: j, R: spec.R})
 		return mkErr(spec.R, false)
@@ -539,9 +568,9 @@ func runScenario(ctx *core.Ctx, in c12Input) {
 	clk := clocktesting.NewFakeClock(time.Unix(1700000000, 0))
 	if closer {
 		var gp *time.Duration
-		if in.Grace {
-			g := gracePeriod
-			gp = &g
+		if g := in.grace(); g != nil {
+			d := time.Duration(*g)
+			gp = &d
 		}
 		mgr = concurrency.NewRunnerCloserManager(quietLog, gp, runners...)
 		mgr.VerifSetClock(clk)
@@ -552,6 +581,9 @@ func runScenario(ctx *core.Ctx, in c12Input) {
 				panic("c12: AddCloser on a fresh manager failed")
 			}
 			s.registered[j] = true
+			if s.cspec[j].Now {
+				s.toldC[j] = true
+			}
 		}
 	} else {
 		plain = concurrency.NewRunnerManager(runners...)
@@ -628,6 +660,9 @@ func runScenario(ctx *core.Ctx, in c12Input) {
 			err := mgr.AddCloser(s.closerFn(j))
 			if err == nil {
 				s.registered[j] = true
+				if cs.Now {
+					s.toldC[j] = true
+				}
 			}
 			s.rec.stamp(obsRec{K: "addcloser", I: j, OK: err == nil})
 		case "add":
@@ -643,37 +678,64 @@ func runScenario(ctx *core.Ctx, in c12Input) {
 			}
 			s.rec.stamp(obsRec{K: "add", I: i, OK: err == nil})
 		case "cret":
-			if a.I < 0 || a.I >= len(s.cspec) || s.toldC[a.I] {
+			if a.I < 0 || a.I >= len(s.cspec) || (s.toldC[a.I] && !s.cspec[a.I].Now) {
 				panic("c12: bad cret action")
 			}
 			j := a.I
-			if s.rec.waitFor(func(seq []obsRec) bool { return has(seq, "cstart", j) }) {
+			if s.cspec[j].Now {
+				// returns on its own: only wait for it
+				s.rec.waitFor(func(seq []obsRec) bool { return has(seq, "cret", j) })
+			} else if s.rec.waitFor(func(seq []obsRec) bool { return has(seq, "cstart", j) }) {
 				close(s.tellC[j])
 				s.toldC[j] = true
 			}
-		case "fire":
-			early := false
-			if s.runLive && in.Grace {
+		case "adv", "fire":
+			g := in.grace()
+			if a.A == "fire" { // the grace period, as far as a clock can go forward
+				a.A, a.D = "adv", 0
+				if g != nil && *g > 0 {
+					a.D = *g
+				}
+			}
+			if a.D < 0 {
+				panic("c12: negative clock advance")
+			}
+			expectFatal := false
+			if s.runLive && g != nil {
 				s.rec.mu.Lock()
 				done := has(s.rec.seq, "runret", 0)
+				allR := true
+				for _, i := range s.knownRunners() {
+					allR = allR && has(s.rec.seq, "rret", i)
+				}
 				s.rec.mu.Unlock()
-				if !done {
-					// the timer must be armed before the clock moves
+				outstanding := false
+				for j := range s.cspec {
+					if s.registered[j] && !s.toldC[j] {
+						outstanding = true
+					}
+				}
+				if !done && allR && outstanding {
+					// shutdown is under way and cannot finish: the timer exists or is about to;
+					// it must be armed before the clock moves
 					deadline := time.Now().Add(waitDeadline)
 					for !clk.HasWaiters() && time.Now().Before(deadline) {
 						runtime.Gosched()
 						time.Sleep(20 * time.Microsecond)
 					}
-					for j := range s.cspec {
-						if s.registered[j] && !s.toldC[j] {
-							early = true
-						}
+					if a.D > math.MaxInt64-s.advShut {
+						s.advShut = math.MaxInt64
+					} else {
+						s.advShut += a.D
+					}
+					if !s.fatalDue && s.advShut >= *g {
+						s.fatalDue, expectFatal = true, true
 					}
 				}
 			}
-			s.rec.stamp(obsRec{K: "fire"})
-			clk.Step(gracePeriod)
-			if early {
+			s.rec.stamp(obsRec{K: "adv", D: a.D})
+			clk.Step(time.Duration(a.D))
+			if expectFatal {
 				s.rec.waitFor(func(seq []obsRec) bool { return hasKind(seq, "fatal") })
 			}
 		default:
@@ -711,7 +773,7 @@ func runScenario(ctx *core.Ctx, in c12Input) {
 	for _, cl := range in.Closers {
 		cs = append(cs, fmt.Sprintf("%s/t%d", coqOptZ(cl.R), cl.T))
 	}
-	c.Class = fmt.Sprintf("%s/g%v/%s/%s/%s", in.Kind, in.Grace, strings.Join(rs, ","), strings.Join(cs, ","),
+	c.Class = fmt.Sprintf("%s/g%s/%s/%s/%s", in.Kind, coqGrace(in.grace()), strings.Join(rs, ","), strings.Join(cs, ","),
 		strings.Join(shape, ","))
 	c.Trivial = len(in.Runners) == 0 && len(in.Closers) == 0
 	if closer {
@@ -723,7 +785,7 @@ func runScenario(ctx *core.Ctx, in c12Input) {
 		for i := range in.Closers {
 			cls[i] = coqOptZ(s.cspec[i].R)
 		}
-		c.Coq = fmt.Sprintf("CMgr %s %s %s %s %s", hx.CoqBool(in.Grace), hx.CoqList(behs), hx.CoqList(cls),
+		c.Coq = fmt.Sprintf("CMgr %s %s %s %s %s", coqGrace(in.grace()), hx.CoqList(behs), hx.CoqList(cls),
 			hx.CoqList(script), hx.CoqList(trace))
 	} else {
 		behs := make([]string, len(in.Runners))
@@ -736,7 +798,20 @@ func runScenario(ctx *core.Ctx, in c12Input) {
 	ctx.Sink.Count(fmt.Sprintf("%s/runners=%d", in.Kind, len(in.Runners)))
 	if closer {
 		ctx.Sink.Count(fmt.Sprintf("mgr/closers=%d", len(in.Closers)))
-		ctx.Sink.Count(fmt.Sprintf("mgr/grace=%v", in.Grace))
+		switch g := in.grace(); {
+		case g == nil:
+			ctx.Sink.Count("mgr/grace=nil")
+		case *g < 0:
+			ctx.Sink.Count("mgr/grace=negative")
+		case *g == 0:
+			ctx.Sink.Count("mgr/grace=0")
+		case *g == 1:
+			ctx.Sink.Count("mgr/grace=1ns")
+		case *g > int64(1000*time.Hour):
+			ctx.Sink.Count("mgr/grace=huge")
+		default:
+			ctx.Sink.Count("mgr/grace=ordinary")
+		}
 		for _, cl := range s.cspec {
 			ctx.Sink.Count(fmt.Sprintf("mgr/closer_type=%d", cl.T))
 		}
@@ -1227,8 +1302,10 @@ func mgrScript(r *hx.Rand, in *c12Input, all []runnerSpec, ncons int, rperm, cpe
 				c := randCloser(r)
 				add(actSpec{A: "addcloser", C: &c})
 			case 9:
-				if in.Grace && pos < len(cperm) {
-					add(actSpec{A: "fire"})
+				if g := in.grace(); g != nil && pos < len(cperm) {
+					for _, d := range advancesFor(r, *g, r.Intn(5)) {
+						add(actSpec{A: "adv", D: d})
+					}
 				}
 			}
 		}
@@ -1247,10 +1324,119 @@ func mgrScript(r *hx.Rand, in *c12Input, all []runnerSpec, ncons int, rperm, cpe
 		add(actSpec{A: "addcloser", C: &c})
 	case 10:
 		add(actSpec{A: "fire"})
+		add(actSpec{A: "adv", D: int64(r.Intn(3))})
 	case 5:
 		add(actSpec{A: "run"})
 	}
 	in.Script = sc
+}
+
+// the grace periods worth trying: none, negative, zero, the smallest positive one, an ordinary
+// one, a huge one
+var graceValues = []int64{-int64(time.Second), 0, 1, int64(time.Hour), 1 << 62}
+
+func randGrace(r *hx.Rand, must bool) *int64 {
+	if !must && r.Chance(1, 3) {
+		return nil
+	}
+	g := graceValues[r.Intn(len(graceValues))]
+	return &g
+}
+
+// advancesFor: clock advances (all >= 0) that relate to the grace period g in way `how`:
+// 0 exactly g at once; 1 one nanosecond short, then the missing nanosecond; 2 in two halves;
+// 3 more than g; 4 short of g only (the period does not elapse). For g <= 0 the clock only has
+// to be touched.
+func advancesFor(r *hx.Rand, g int64, how int) []int64 {
+	if g <= 0 {
+		if how == 3 {
+			return []int64{int64(1 + r.Intn(1000))}
+		}
+		return []int64{0}
+	}
+	switch how {
+	case 1:
+		return []int64{g - 1, 1}
+	case 2:
+		return []int64{g / 2, g - g/2}
+	case 3:
+		if g > math.MaxInt64-1000 {
+			return []int64{g}
+		}
+		return []int64{g + int64(1+r.Intn(1000))}
+	case 4:
+		return []int64{g - 1}
+	}
+	return []int64{g}
+}
+
+// genGrace: every grace value x closers that block / return at once x the ways the clock can relate
+// to the period (exactly, one nanosecond short then the rest, in halves, more, short only, not
+// touched at all), with 0..1 runners.
+func genGrace(ctx *core.Ctx) {
+	r := ctx.R
+	vals := append([]*int64{nil}, func() []*int64 {
+		var out []*int64
+		for i := range graceValues {
+			out = append(out, &graceValues[i])
+		}
+		return out
+	}()...)
+	for _, g := range vals {
+		for shape := 0; shape < 3; shape++ { // 0: one blocking closer; 1: one immediate + one blocking; 2: two blocking
+			for how := 0; how <= 5; how++ {
+				for nr := 0; nr <= 1; nr++ {
+					if timeouts.Load() >= maxTimeouts {
+						return
+					}
+					in := c12Input{Kind: "mgr", GD: g}
+					var sc []actSpec
+					if nr == 1 {
+						in.Runners = []runnerSpec{{B: "free", R: randResult(r, true)}}
+					}
+					block := func() closerSpec { c := randCloser(r); return c }
+					switch shape {
+					case 0:
+						in.Closers = []closerSpec{block()}
+					case 1:
+						now := randCloser(r)
+						now.Now = true
+						in.Closers = []closerSpec{now, block()}
+					default:
+						in.Closers = []closerSpec{block(), block()}
+					}
+					sc = append(sc, actSpec{A: "run"})
+					if nr == 1 {
+						sc = append(sc, actSpec{A: "ret", I: 0})
+					}
+					last := len(in.Closers) - 1
+					for j, c := range in.Closers {
+						if c.Now {
+							sc = append(sc, actSpec{A: "cret", I: j})
+						}
+					}
+					if shape == 2 {
+						sc = append(sc, actSpec{A: "cret", I: 0})
+					}
+					if how < 5 {
+						gv := int64(0)
+						if g != nil {
+							gv = *g
+						} else {
+							gv = int64(time.Hour)
+						}
+						for _, d := range advancesFor(r, gv, how) {
+							sc = append(sc, actSpec{A: "adv", D: d})
+						}
+					}
+					sc = append(sc, actSpec{A: "cret", I: last}, actSpec{A: "adv", D: int64(r.Intn(2))}, actSpec{A: "close"})
+					in.Script = sc
+					c12Run(ctx, in)
+					ctx.Sink.Count(fmt.Sprintf("grace/how=%d", how))
+				}
+			}
+		}
+	}
 }
 
 func freeRunners(rs []runnerSpec) []int {
@@ -1307,10 +1493,7 @@ func genMgr(ctx *core.Ctx) {
 							if ctx.Thorough {
 								extra = k
 							}
-							in := c12Input{Kind: "mgr", Grace: r.Bool(), Ctx: []string{"cancel", "deadline", "cause"}[r.Intn(3)]}
-							if extra == 9 {
-								in.Grace = true
-							}
+							in := c12Input{Kind: "mgr", GD: randGrace(r, extra == 9), Ctx: []string{"cancel", "deadline", "cause"}[r.Intn(3)]}
 							for j := 0; j < nc; j++ {
 								in.Closers = append(in.Closers, randCloser(r))
 							}
@@ -1531,6 +1714,7 @@ func c12Gen(ctx *core.Ctx) {
 		}
 	}
 	genDegenerate(ctx)
+	genGrace(ctx)
 	genSeams(ctx)
 	genPlain(ctx)
 	genMgr(ctx)
